@@ -12,6 +12,8 @@ CONSTANTS Family = "heco"
           MaxStored = 14
           MaxLen = 9
           EmitOn = FALSE
+          Sprint = 0
+          SpanEnd = 0
           TwoBranch = FALSE
           TraceLen = 16
 INVARIANT PropC29
